@@ -1388,4 +1388,78 @@ REGISTRY = {
 
 
 def selftest():
-    return 0
+    """Demonstrates the binding: each corrupted observation / prediction must be
+    rejected, and the uncorrupted one accepted."""
+    import copy
+    import io
+    import contextlib
+    import lexcheck as lx
+    ok = True
+
+    def quiet(fn):
+        buf = io.StringIO()
+        with contextlib.redirect_stdout(buf):
+            return fn()
+
+    # (1) a generated behaviour: good accepted; one printed line / the diagnostic column changed -> rejected
+    body_src = "x := [1, 2]\nprint(x[0] + 1)\nprint(x[5])\n"
+    hooked = sv.build(True)
+    d = sv.scratch("selftest")
+    open(os.path.join(d, "s.sd"), "w").write(body_src)
+    evs, _, _, _ = sv.dump(hooked, d, "s.sd")
+    body = sv.ast_of(evs)
+    outs, _ = sv.spec_eval([body], "selftest")
+    good = outs[0]
+    # relabel the dumped tree with paths is not needed: replay works on (key, body, outcome)
+    # through SeedRun's real positions, so use corpus_validate-style comparison here
+    plain = sv.build(False)
+    so, se, code = sv.run_seed(plain, "s.sd", d)
+    acc = sv.matches(sv.expected(good, "s.sd"), so, se, code)
+    bad1 = copy.deepcopy(good)
+    bad1["out"][0] = [51]
+    bad2 = copy.deepcopy(good)
+    bad2["status"]["diag"]["locs"][0]["loc"][1] += 1
+    r1 = sv.matches(sv.expected(bad1, "s.sd"), so, se, code)
+    r2 = sv.matches(sv.expected(bad2, "s.sd"), so, se, code)
+    print("selftest behaviour: good accepted=%s, corrupted print accepted=%s, corrupted column accepted=%s"
+          % (acc, r1, r2))
+    ok &= acc and not r1 and not r2
+
+    # (2) token stream: good accepted; a token column / a dropped token rejected
+    texts = ['x := "a\\n" + 1 # c\n  y\n']
+    specs, _ = lx.spec_lex(texts, "selftest")
+    c0 = Ctx("C03", "quick", 1)
+    quiet(lambda: lx.check_texts(c0, texts, specs, "selftest", "C03"))
+    s1 = copy.deepcopy(specs)
+    s1[0]["toks"][2]["c"] += 1
+    c1 = Ctx("C03", "quick", 1)
+    quiet(lambda: lx.check_texts(c1, texts, s1, "selftest", "C03"))
+    s2 = copy.deepcopy(specs)
+    del s2[0]["toks"][3]
+    c2 = Ctx("C03", "quick", 1)
+    quiet(lambda: lx.check_texts(c2, texts, s2, "selftest", "C03"))
+    print("selftest tokens: good violations=%d, shifted column violations=%d, dropped token violations=%d"
+          % (c0.nviol, c1.nviol, c2.nviol))
+    ok &= c0.nviol == 0 and c1.nviol == 1 and c2.nviol == 1
+
+    # (3) arithmetic observations: a correct one allowed, results off by one / wrong overflow flagged
+    obs = [{"kind": "arith", "op": "*", "a": big(3037000500), "b": big(3037000500), "res": "overflow", "r": big(0)},
+           {"kind": "arith", "op": "*", "a": big(3037000499), "b": big(3037000499), "res": "value",
+            "r": big(3037000499 * 3037000499)},
+           {"kind": "arith", "op": "*", "a": big(3037000499), "b": big(3037000499), "res": "value",
+            "r": big(3037000499 * 3037000499 + 1)},
+           {"kind": "arith", "op": "+", "a": big(I64_MAX), "b": big(1), "res": "value", "r": big(I64_MIN)},
+           {"kind": "divmod", "a": big(-7), "b": big(2), "qres": "value", "q": big(-3), "rres": "value", "r": big(-1)},
+           {"kind": "divmod", "a": big(-7), "b": big(2), "qres": "value", "q": big(-4), "rres": "value", "r": big(1)},
+           {"kind": "cmp", "op": "<", "a": big(I64_MIN), "b": big(I64_MAX), "rb": False}]
+    of = os.path.join(d, "obs.ndjson")
+    with open(of, "w") as fh:
+        for o in obs:
+            fh.write(json.dumps(o) + "\n")
+    rc, out = sv.tlc("Trace_Arith", cfg=os.path.join(sv.SPEC, "Trace_Arith.cfg"), env={"SEED_OBS": of},
+                     workers=2, timeout=300)
+    badset = sorted(int(m.group(1)) for l in out for m in [re.match(r'"BADOBS (\d+)"', l)] if m)
+    print("selftest arithmetic: rejected observations", badset, "(expected [3, 4, 6, 7])")
+    ok &= sv.tlc_ok(rc, out) and badset == [3, 4, 6, 7]
+    print("selftest", "ok" if ok else "FAILED")
+    return 0 if ok else 1
